@@ -78,6 +78,7 @@ class BuiltinClass:
         'StopIteration': ['Exception'],
         'struct.error': ['Exception'],
         'binascii.Error': ['ValueError'],
+        'struct.error': ['Exception'],
     }
 
     def __new__(cls, name):
